@@ -21,18 +21,41 @@
                                                       (the state is updated); one result per line, in order
      split <hex>           -> <n> <length>*           script_lines_tr only: number of lines and their lengths
      cd <hex>              -> ok                      hstep (HCd dir): ts.cd := dir
-     listing               -> none | l <key>=<value>* env_listing (key and value in hex, joined by "=") *)
+     listing               -> none | l <key>=<value>* env_listing (key and value in hex, joined by "=")
+     histholds <name>*     -> true|false|untracked    the requests since the last reset, read as a history
+                                                      (line -> hcmd_of_line, setenv -> HSetenv, cd -> HCd):
+                                                      hrun of that history from the reset state is the current
+                                                      state, and history_holds is true for every name *)
 let st = ref (setup_env [])
 let cd = ref []
+(* the history since the last reset (newest first), the reset state, and whether every state change
+   since then is in the history (a script request is not) *)
+let hist : hcmd list ref = ref []
+let vars0 : byte list list ref = ref []
+let cd0 : byte list ref = ref []
+let tracked = ref true
 let hexes l = String.concat " " (List.map hex_of_bytes l)
 let show_args = function
   | None -> "fail"
   | Some ws -> if ws = [] then "args" else "args " ^ hexes ws
 let () = serve (function
-  | "reset" :: c :: vars -> cd := bytes_of_hex c; st := setup_env (List.map bytes_of_hex vars); "ok"
-  | ["line"; x] -> let (s, r) = ts_step !st (bytes_of_hex x) in st := s; show_args r
+  | "reset" :: c :: vars ->
+      cd := bytes_of_hex c; vars0 := List.map bytes_of_hex vars; cd0 := !cd; hist := []; tracked := true;
+      st := setup_env !vars0; "ok"
+  | ["line"; x] ->
+      hist := hcmd_of_line !st (bytes_of_hex x) :: !hist;
+      let (s, r) = ts_step !st (bytes_of_hex x) in st := s; show_args r
   | ["parse"; x] -> show_args (ts_parse !st (bytes_of_hex x))
-  | ["setenv"; k; v] -> st := setenv (bytes_of_hex k) (bytes_of_hex v) !st; "ok"
+  | ["setenv"; k; v] ->
+      hist := HSetenv (bytes_of_hex k, bytes_of_hex v) :: !hist;
+      st := setenv (bytes_of_hex k) (bytes_of_hex v) !st; "ok"
+  | "histholds" :: names ->
+      if not !tracked then "untracked" else begin
+        let h = List.rev !hist in
+        let s = hrun h { hs_env = setup_env !vars0; hs_cd = !cd0 } in
+        string_of_bool (hstate_eqb s { hs_env = !st; hs_cd = !cd }
+                        && List.for_all (fun n -> history_holds h !vars0 !cd0 (bytes_of_hex n)) names)
+      end
   | "getenv" :: names -> String.concat " " ("v" :: List.map (fun n -> hex_of_bytes (getenv !st (bytes_of_hex n))) names)
   | ["child"] -> (match child_env !st !cd with None -> "none" | Some l -> if l = [] then "env" else "env " ^ hexes l)
   | ["childlookup"; n] ->
@@ -51,12 +74,13 @@ let () = serve (function
   | ["holds"; l; k; v] -> string_of_bool (c02_holds_on !st !cd (bytes_of_hex l) (bytes_of_hex k) (bytes_of_hex v))
   | ["script"; x] ->
       let (s, rs) = run_script !st (bytes_of_hex x) in
-      st := s;
+      st := s; tracked := false;
       String.concat " ; " (string_of_int (List.length rs) :: List.map show_args rs)
   | ["split"; x] ->
       let ls = script_lines_tr (bytes_of_hex x) in
       String.concat " " (string_of_int (List.length ls) :: List.map (fun l -> string_of_int (List.length l)) ls)
   | ["cd"; d] ->
+      hist := HCd (bytes_of_hex d) :: !hist;
       let s = hstep { hs_env = !st; hs_cd = !cd } (HCd (bytes_of_hex d)) in
       st := s.hs_env; cd := s.hs_cd; "ok"
   | ["listing"] ->
